@@ -10,8 +10,8 @@ callback — that running them equals the direct, loop-free formulation below (`
 What the programs say (and the interpreter executes statement by statement):
   * security list = operation's list if the operation has one (even an empty one), else the document's; an empty list
     passes without any call; otherwise requirements are tried in order (`continue` on failure), the first satisfied one
-    wins; inside one requirement: scheme names sorted, `Options.AuthenticationFunc == nil` fails the requirement (even an
-    empty one) before anything else, an undeclared scheme fails it without calling the callback, the callback receives
+    wins; inside one requirement: an empty requirement passes at once, scheme names sorted,
+    `Options.AuthenticationFunc == nil` fails the requirement, an undeclared scheme fails it without calling the callback, the callback receives
     (scheme name, the declared scheme, the scopes this requirement lists for it), the first failing call ends the
     requirement;
   * path-level parameters in document order; `continue` past query parameters when ExcludeRequestQueryParams is set and
@@ -127,7 +127,7 @@ inductive NameStep | lookupScheme | undeclaredFails | scopesOf | bodyIO | callAu
 
 /-- `validateSecurityRequirement` -/
 inductive OneStep
-  /-- `if len(securityRequirement) == 0 { return nil }` (not in the pinned source: the repair proposed for F-C07-1) -/
+  /-- `if len(securityRequirement) == 0 { return nil }` (the repair of F-C07-1) -/
   | emptyReqOk
   | sortedNames | optionsDefault | needAuthFunc | schemesFromComponents | bodyIO
   | forNames (steps : List NameStep) | retNil
@@ -157,7 +157,7 @@ def thePrograms : Programs where
     .retNil ]
   secAll := [.emptyOk, .tryEach .cont, .failAll]
   secOne := [
-    .sortedNames, .optionsDefault, .needAuthFunc, .schemesFromComponents, .bodyIO,
+    .emptyReqOk, .sortedNames, .optionsDefault, .needAuthFunc, .schemesFromComponents, .bodyIO,
     .forNames [.lookupScheme, .undeclaredFails, .scopesOf, .bodyIO, .callAuth none],
     .retNil ]
   lookup := [.findFirst [(.name, 1), (.loc, 0)], .retNil]
@@ -398,7 +398,7 @@ def runSecurity (env : Env) (op : Op) : Bool × List AuthCall :=
   | [] => (true, [])
   | rs =>
     match env.auth with
-    | none => (false, [])
+    | none => (rs.any (·.isEmpty), [])
     | some a => runReqs env.declared a 0 rs
 
 def opList (op : Op) : List Param := op.opParams.getD []
@@ -454,12 +454,6 @@ def failingSpec (o : Opts) (op : Op) (env : Env) : List Part :=
   (if secSpecB env op then [] else [Part.security]) ++
   ((effective o op).filter (fun p => !p.ok)).map Part.param ++
   (if op.hasBody && !o.excludeBody && !op.bodyOK then [Part.body] else [])
-
-/-- **Exclusion class NilAuthEmptyRequirement (finding F-C07-1).** No authentication callback is configured and the
-applicable security list is not empty but offers an empty requirement: by the property text nothing needs to be
-authenticated, the code answers `ErrAuthenticationServiceMissing` for every requirement, the empty one included. -/
-def exclNilAuthEmptyReq (env : Env) (op : Op) : Bool :=
-  env.auth.isNone && !(securityList op).isEmpty && (securityList op).any (·.isEmpty)
 
 /-! ### One level below the bits: what the request carries for a parameter / as a body
 
